@@ -51,6 +51,48 @@ func scribble(buf []byte, pattern int, next []byte) {
 type c08Msg struct {
 	enc  func() []byte
 	walk func() []obsEntry
+	v6   dhcpv6.DHCPv6
+}
+
+// c08Reparse re-uses the option objects of a decoded DHCPv6 message as decoders: every top-level option whose type
+// has a FromBytes method (and every NTP server-FQDN sub-option) parses a small well-formed payload from a buffer of
+// its own. Returns those buffers. An object that was decoded from one buffer and then decodes from another must
+// end up owning its memory just the same, and must not write to either.
+func c08Reparse(d dhcpv6.DHCPv6) [][]byte {
+	var bufs [][]byte
+	var opts dhcpv6.Options
+	switch m := d.(type) {
+	case *dhcpv6.Message:
+		opts = m.Options.Options
+	case *dhcpv6.RelayMessage:
+		opts = m.Options.Options
+	}
+	for _, o := range opts {
+		if ntp, ok := o.(*dhcpv6.OptNTPServer); ok {
+			for _, so := range ntp.Suboptions {
+				if f, ok := so.(*dhcpv6.NTPSuboptionSrvFQDN); ok {
+					b := []byte{3, 'n', 't', 'p', 0}
+					if f.FromBytes(b) == nil {
+						bufs = append(bufs, b)
+					}
+				}
+			}
+			continue
+		}
+		fb, ok := o.(interface{ FromBytes([]byte) error })
+		if !ok {
+			continue
+		}
+		for _, mo := range c09MinimalOpts {
+			if mo.code == uint16(o.Code()) && mo.code != 9 {
+				b := append(append([]byte{}, mo.payload...), make([]byte, 0, 64)...) // spare capacity behind the payload, like a slice of a larger receive buffer
+				if fb.FromBytes(b) == nil {
+					bufs = append(bufs, b)
+				}
+			}
+		}
+	}
+	return bufs
 }
 
 func c08Decode(v6 bool, buf []byte) (*c08Msg, bool) {
@@ -59,13 +101,13 @@ func c08Decode(v6 bool, buf []byte) (*c08Msg, bool) {
 		if err != nil {
 			return nil, false
 		}
-		return &c08Msg{d.ToBytes, func() []obsEntry { return observeV6(d, false) }}, true
+		return &c08Msg{d.ToBytes, func() []obsEntry { return observeV6(d, false) }, d}, true
 	}
 	p, err := dhcpv4.FromBytes(buf)
 	if err != nil {
 		return nil, false
 	}
-	return &c08Msg{p.ToBytes, func() []obsEntry { return observeV4(p, false) }}, true
+	return &c08Msg{p.ToBytes, func() []obsEntry { return observeV4(p, false) }, nil}, true
 }
 
 var c08 = newChk("C08", "ownership",
@@ -114,6 +156,27 @@ var c08 = newChk("C08", "ownership",
 		w3 := m.walk()
 		if name, a, b := diffEntries(w1, w3); name != "" {
 			return obs.Failf("C08/"+fam+"/output-aliased/"+methodKey(name), fmt.Sprintf("%s unchanged: %s", name, a), "%s", b)
+		}
+		// option objects of the decoded message reused as decoders (from buffers of their own)
+		if c.V6 && len(c.B) <= 1024 {
+			buf2 := append([]byte{}, c.B...)
+			if m2, ok := c08Decode(true, buf2); ok {
+				bufs := c08Reparse(m2.v6)
+				if !bytes.Equal(buf2, c.B) {
+					return obs.Failf("C08/v6/reparse-wrote-to-the-first-buffer", "decoding into an option object leaves every input buffer unchanged", "the message's source buffer changed at byte %d", firstDiff(buf2, c.B))
+				}
+				if len(bufs) > 0 {
+					encA := append([]byte{}, m2.enc()...)
+					scribble(buf2, c.Pattern, c.Next)
+					for _, b := range bufs {
+						scribble(b[:cap(b)], c.Pattern, c.Next)
+					}
+					if encB := m2.enc(); !bytes.Equal(encA, encB) {
+						return obs.Failf("C08/v6/input-aliased/after-reparse", "encoding unchanged after every source buffer was overwritten", "differs at byte %d", firstDiff(encA, encB))
+					}
+					rec.Class("option objects re-used as decoders")
+				}
+			}
 		}
 		rec.Class(fmt.Sprintf("%s pattern %d", fam, c.Pattern))
 		if c.V6 {
